@@ -195,8 +195,24 @@ theorem lookupLpt_ok {s : State} {d1 d2 : Denom} {n : Nat} (h : lookupLpt s d1 d
           exact ⟨d2, hget, fun e => hne (h1.trans e.symm), Or.inl ⟨h1, rfl⟩⟩
         · simp only [h1, if_false] at hget
           have h2 : d2 = s.std := by
-            by_contra h2; exact hstd ⟨h1, h2⟩
+            by_cases h2 : d2 = s.std
+            · exact h2
+            · exact absurd ⟨h1, h2⟩ hstd
           exact ⟨d1, hget, h1, Or.inr ⟨rfl, h2⟩⟩
+
+theorem lookupLpt_symm (s : State) (d1 d2 : Denom) : lookupLpt s d1 d2 = lookupLpt s d2 d1 := by
+  unfold lookupLpt
+  by_cases e : d1 = d2
+  · subst e; rfl
+  · have e' : ¬ d2 = d1 := fun h => e h.symm
+    by_cases h1 : d1 = s.std
+    · have h2 : ¬ d2 = s.std := fun h => e (h1.trans h.symm)
+      subst h1
+      simp [e, e', h2]
+    · by_cases h2 : d2 = s.std
+      · subst h2
+        simp [e, e', h1]
+      · simp [e, e', h1, h2]
 
 theorem lookupLpt_cfg {s s' : State} (h : SameCfg s s') (d1 d2 : Denom) : lookupLpt s' d1 d2 = lookupLpt s d1 d2 := by
   unfold lookupLpt; rw [h.1, h.2.2.1]
@@ -305,18 +321,354 @@ theorem tradeOut_ok {s s' : State} {sender rcpt : Addr} {inD outD : Denom} {maxI
     · cases h
     · rename_i hmax
       obtain ⟨m, hl, hled, hcfg⟩ := swapCoins_ok h
-      have hl' : lookupLpt s outD inD = .ok m := by
-        obtain ⟨cp, hg, hne, hdir⟩ := lookupLpt_ok hl
-        unfold lookupLpt at hl ⊢
-        rcases hdir with ⟨e1, e2⟩ | ⟨e1, e2⟩
-        · subst e1; subst e2
-          have : ¬ (cp = s.std) := hne
-          simp [this, hg, Ne.symm this] 
-        · subst e1; subst e2
-          have : ¬ (inD = s.std) := hne
-          simp [this, hg, Ne.symm this]
+      have hl' : lookupLpt s outD inD = .ok m := by rw [lookupLpt_symm]; exact hl
       have : m = n := lookup_unique hl' hleg.look
       subst this
       exact ⟨m, sold, hleg, by omega, hled, hcfg⟩
+
+
+theorem doubleIn_ok {s s' : State} {sender rcpt : Addr} {inD outD : Denom} {inA minOut : Nat}
+    (h : doubleIn s sender rcpt inD inA outD minOut = .ok s') :
+    ∃ na nb k bought s1, LegIn s inD inA s.std na k ∧
+      Ledger s.bank s1.bank (singleSpec sender rcpt na inD s.std inA k) ∧ SameCfg s s1 ∧
+      LegIn s1 s.std k outD nb bought ∧ minOut ≤ bought ∧
+      Ledger s1.bank s'.bank (singleSpec sender rcpt nb s.std outD k bought) ∧ SameCfg s1 s' := by
+  unfold doubleIn at h
+  split at h
+  · cases h
+  · rename_i k hc1
+    obtain ⟨na, hleg1⟩ := calcIn_ok hc1
+    split at h
+    · cases h
+    · rename_i s1 hs1
+      obtain ⟨m1, hl1, hled1, hcfg1⟩ := swapCoins_ok hs1
+      have e1 : m1 = na := lookup_unique hl1 hleg1.look
+      subst e1
+      split at h
+      · cases h
+      · rename_i bought hc2
+        obtain ⟨nb, hleg2⟩ := calcIn_ok hc2
+        split at h
+        · cases h
+        · rename_i hmin
+          obtain ⟨m2, hl2, hled2, hcfg2⟩ := swapCoins_ok h
+          have e2 : m2 = nb := lookup_unique hl2 hleg2.look
+          subst e2
+          exact ⟨m1, m2, k, bought, s1, hleg1, hled1, hcfg1, hleg2, by omega, hled2, hcfg2⟩
+
+theorem doubleOut_ok {s s' : State} {sender rcpt : Addr} {inD outD : Denom} {maxIn outA : Nat}
+    (h : doubleOut s sender rcpt inD maxIn outD outA = .ok s') :
+    ∃ na nb k sold s1, LegOut s outD outA s.std nb k ∧ LegOut s s.std k inD na sold ∧ sold ≤ maxIn ∧
+      Ledger s.bank s1.bank (singleSpec sender rcpt na inD s.std sold k) ∧ SameCfg s s1 ∧
+      Ledger s1.bank s'.bank (singleSpec sender rcpt nb s.std outD k outA) ∧ SameCfg s1 s' := by
+  unfold doubleOut at h
+  split at h
+  · cases h
+  · rename_i k hc1
+    obtain ⟨nb, hleg1⟩ := calcOut_ok hc1
+    split at h
+    · cases h
+    · rename_i sold hc2
+      obtain ⟨na, hleg2⟩ := calcOut_ok hc2
+      split at h
+      · cases h
+      · rename_i hmax
+        split at h
+        · cases h
+        · rename_i s1 hs1
+          obtain ⟨m1, hl1, hled1, hcfg1⟩ := swapCoins_ok hs1
+          obtain ⟨m2, hl2, hled2, hcfg2⟩ := swapCoins_ok h
+          have e1 : m1 = na := by
+            have := hleg2.look; rw [lookupLpt_symm] at this; exact lookup_unique hl1 this
+          have e2 : m2 = nb := by
+            have := hleg1.look; rw [lookupLpt_symm, ← lookupLpt_cfg hcfg1] at this
+            exact lookup_unique hl2 this
+          subst e1; subst e2
+          exact ⟨m1, m2, k, sold, s1, hleg1, hleg2, by omega, hled1, hcfg1, hled2, hcfg2⟩
+
+/-! ### liquidity -/
+
+/-- the literal moves of `DeductPoolCreationFee` -/
+def feeMoves (s : State) (sender : Addr) : List Mv :=
+  [.xfer sender modAddr s.params.pcfDenom s.params.pcfAmt,
+   .xfer modAddr fcAddr s.params.pcfDenom (s.params.pcfAmt * s.params.tax / D),
+   .burn modAddr s.params.pcfDenom (s.params.pcfAmt - s.params.pcfAmt * s.params.tax / D)]
+
+/-- what the property demands of the fee: tax to the fee collector, the rest burned -/
+def feeSpec (s : State) (sender : Addr) : List Mv :=
+  [.xfer sender fcAddr s.params.pcfDenom (s.params.pcfAmt * s.params.tax / D),
+   .burn sender s.params.pcfDenom (s.params.pcfAmt - s.params.pcfAmt * s.params.tax / D)]
+
+theorem deductFee_ok {s s1 : State} {sender : Addr} (h : deductFee s sender = .ok s1) :
+    Ledger s.bank s1.bank (feeMoves s sender) ∧ SameCfg s s1 := by
+  unfold deductFee at h
+  split at h
+  · cases h
+  · split at h
+    · cases h
+    · rename_i b1 h1
+      split at h
+      · cases h
+      · rename_i b2 h2
+        split at h
+        · cases h
+        · rename_i b3 h3
+          cases h
+          exact ⟨Ledger.trans (send_ledger h1) (Ledger.trans (send_ledger h2) (burnCk_ledger h3)), SameCfg.withBank s b3⟩
+
+theorem tax_le (p t : Nat) (ht : t ≤ D) : p * t / D ≤ p := by
+  apply Nat.div_le_of_le_mul
+  rw [Nat.mul_comm D p]
+  exact Nat.mul_le_mul_left p ht
+
+/-- for a valid tax rate the module account nets to zero: the literal moves equal the spec -/
+theorem feeMoves_net (s : State) (sender : Addr) (ht : s.params.tax ≤ D) :
+    (∀ a d, netBal (feeMoves s sender) a d = netBal (feeSpec s sender) a d) ∧
+    (∀ d, netSup (feeMoves s sender) d = netSup (feeSpec s sender) d) := by
+  have hle := tax_le s.params.pcfAmt s.params.tax ht
+  constructor
+  · intro a d
+    simp only [feeMoves, feeSpec, netBal, Mv.bal]
+    split <;> split <;> split <;> omega
+  · intro d
+    simp only [feeMoves, feeSpec, netSup, Mv.sup]
+    omega
+
+def addMoves (s : State) (sender : Addr) (n : Nat) (cp : Denom) (dS t m : Nat) : List Mv :=
+  [.xfer sender (poolAddr n) s.std dS, .xfer sender (poolAddr n) cp t, .mint sender (lptDenom n) m]
+
+theorem addLiq_ok {s s' : State} {sender : Addr} {n : Nat} {cp : Denom} {dS t m : Nat} {resp : CoinList}
+    (h : addLiq s sender n cp dS t m = .ok (s', resp)) :
+    Ledger s.bank s'.bank (addMoves s sender n cp dS t m) ∧ SameCfg s s' ∧ resp = [(lptDenom n, m)] := by
+  unfold addLiq at h
+  split at h
+  · cases h
+  · rename_i b1 h1
+    split at h
+    · cases h
+    · rename_i b2 h2
+      simp only [minted] at h
+      cases h
+      exact ⟨Ledger.trans (send_ledger h1) (Ledger.trans (send_ledger h2) (mint_ledger b2 _ _ _)),
+        ⟨rfl, rfl, rfl, rfl, rfl, rfl⟩, rfl⟩
+
+theorem addExisting_ok {s s' : State} {sender : Addr} {n : Nat} {cp : Denom} {maxA dS minL : Nat} {resp : CoinList}
+    (h : addExisting s sender n cp maxA dS minL = .ok (s', resp)) :
+    0 < resX s n ∧ 0 < resY s n cp ∧ 0 < shares s n ∧
+    minL ≤ shares s n * dS / resX s n ∧ resY s n cp * dS / resX s n + 1 ≤ maxA ∧
+    addLiq s sender n cp dS (resY s n cp * dS / resX s n + 1) (shares s n * dS / resX s n) = .ok (s', resp) := by
+  unfold addExisting at h
+  split at h
+  · cases h
+  · rename_i hz
+    split at h
+    · cases h
+    · split at h
+      · cases h
+      · rename_i hmin
+        split at h
+        · cases h
+        · split at h
+          · cases h
+          · rename_i hmax
+            exact ⟨by omega, by omega, by omega, by omega, by omega, h⟩
+
+theorem stepAdd_ok {s s' : State} {sender : Addr} {cp : Denom} {maxA dS minL : Nat} {dl : Int} {resp : CoinList}
+    (h : stepAdd s sender cp maxA dS minL dl = .ok (s', resp)) :
+    expired s.now dl = false ∧ cp ≠ s.std ∧
+    ((AMap.get? s.pools cp = none ∧ ∃ s1, deductFee s sender = .ok s1 ∧ minL ≤ dS ∧
+        addLiq { s1 with pools := AMap.set s1.pools cp s1.seq, seq := s1.seq + 1 } sender s1.seq cp dS maxA dS
+          = .ok (s', resp)) ∨
+     (∃ n, AMap.get? s.pools cp = some n ∧ addrEmpty s.bank (poolAddr n) = true ∧ minL ≤ dS ∧
+        addLiq s sender n cp dS maxA dS = .ok (s', resp)) ∨
+     (∃ n, AMap.get? s.pools cp = some n ∧ addrEmpty s.bank (poolAddr n) = false ∧
+        addExisting s sender n cp maxA dS minL = .ok (s', resp))) := by
+  unfold stepAdd at h
+  split at h
+  · cases h
+  · rename_i hexp
+    split at h
+    · cases h
+    · rename_i hstd
+      refine ⟨by simpa using hexp, hstd, ?_⟩
+      split at h
+      · rename_i hnone
+        split at h
+        · cases h
+        · rename_i s1 hfee
+          split at h
+          · cases h
+          · rename_i hmin
+            exact Or.inl ⟨hnone, s1, hfee, by omega, h⟩
+      · rename_i n hsome
+        split at h
+        · rename_i hemp
+          split at h
+          · cases h
+          · rename_i hmin
+            exact Or.inr (Or.inl ⟨n, hsome, hemp, by omega, h⟩)
+        · rename_i hemp
+          exact Or.inr (Or.inr ⟨n, hsome, by simpa using hemp, h⟩)
+
+def add1Moves (sender : Addr) (n : Nat) (tokD : Denom) (a m : Nat) : List Mv :=
+  [.xfer sender (poolAddr n) tokD a, .mint sender (lptDenom n) m]
+
+theorem stepAdd1_ok {s s' : State} {sender : Addr} {cp tokD : Denom} {a minL : Nat} {dl : Int} {resp : CoinList}
+    (h : stepAdd1 s sender cp tokD a minL dl = .ok (s', resp)) :
+    expired s.now dl = false ∧ ∃ n, AMap.get? s.pools cp = some n ∧ (tokD = cp ∨ tokD = s.std) ∧
+      add1Fits (s.bank.balOf (poolAddr n) tokD) (shares s n) a (D - s.params.ufee) = true ∧
+      minL ≤ add1Mint (s.bank.balOf (poolAddr n) tokD) (shares s n) a (D - s.params.ufee) ∧
+      Ledger s.bank s'.bank (add1Moves sender n tokD a
+        (add1Mint (s.bank.balOf (poolAddr n) tokD) (shares s n) a (D - s.params.ufee))) ∧
+      SameCfg s s' ∧
+      resp = [(lptDenom n, add1Mint (s.bank.balOf (poolAddr n) tokD) (shares s n) a (D - s.params.ufee))] := by
+  unfold stepAdd1 at h
+  split at h
+  · cases h
+  · rename_i hexp
+    refine ⟨by simpa using hexp, ?_⟩
+    split at h
+    · cases h
+    · rename_i n hsome
+      split at h
+      · cases h
+      · rename_i hden
+        split at h
+        · cases h
+        · split at h
+          · cases h
+          · rename_i hfits
+            split at h
+            · cases h
+            · rename_i hmin
+              split at h
+              · cases h
+              · rename_i b1 h1
+                simp only [minted] at h
+                cases h
+                refine ⟨n, hsome, ?_, by simpa using hfits, by omega,
+                  Ledger.trans (send_ledger h1) (mint_ledger b1 _ _ _), ⟨rfl, rfl, rfl, rfl, rfl, rfl⟩, rfl⟩
+                by_cases e1 : tokD = cp
+                · exact Or.inl e1
+                · by_cases e2 : tokD = s.std
+                  · exact Or.inr e2
+                  · exact absurd ⟨e1, e2⟩ hden
+
+def removeMoves (s : State) (sender : Addr) (n : Nat) (cp : Denom) (w x y : Nat) : List Mv :=
+  [.burn sender (lptDenom n) w, .xfer (poolAddr n) sender s.std x, .xfer (poolAddr n) sender cp y]
+
+theorem removeLiq_ok {s s' : State} {sender : Addr} {n : Nat} {cp : Denom} {w x y : Nat} {resp : CoinList}
+    (h : removeLiq s sender n cp w x y = .ok (s', resp)) :
+    Ledger s.bank s'.bank (removeMoves s sender n cp w x y) ∧ SameCfg s s' ∧ resp = coins [(s.std, x), (cp, y)] := by
+  unfold removeLiq at h
+  split at h
+  · cases h
+  · rename_i b1 h1
+    split at h
+    · cases h
+    · rename_i b2 h2
+      split at h
+      · cases h
+      · rename_i b3 h3
+        cases h
+        exact ⟨Ledger.trans (burnCk_ledger h1) (Ledger.trans (send_ledger h2) (send_ledger h3)),
+          ⟨rfl, rfl, rfl, rfl, rfl, rfl⟩, rfl⟩
+
+theorem stepRemove_ok {s s' : State} {sender : Addr} {lptD : Denom} {w minStd minTok : Nat} {dl : Int} {resp : CoinList}
+    (h : stepRemove s sender lptD w minStd minTok dl = .ok (s', resp)) :
+    expired s.now dl = false ∧ ∃ cp n, findByLpt s.pools lptD = some (cp, n) ∧
+      w ≤ shares s n ∧ 0 < shares s n ∧
+      minStd ≤ w * resX s n / shares s n ∧ minTok ≤ w * resY s n cp / shares s n ∧
+      removeLiq s sender n cp w (w * resX s n / shares s n) (w * resY s n cp / shares s n) = .ok (s', resp) := by
+  unfold stepRemove at h
+  split at h
+  · cases h
+  · rename_i hexp
+    refine ⟨by simpa using hexp, ?_⟩
+    split at h
+    · cases h
+    · rename_i cp n hfind
+      split at h
+      · cases h
+      · split at h
+        · cases h
+        · split at h
+          · cases h
+          · rename_i hw
+            split at h
+            · cases h
+            · rename_i hfit
+              split at h
+              · cases h
+              · rename_i h1
+                split at h
+                · cases h
+                · rename_i h2
+                  exact ⟨cp, n, hfind, by omega, by omega, by omega, by omega, h⟩
+
+def rem1Moves (sender : Addr) (n : Nat) (minD : Denom) (w out : Nat) : List Mv :=
+  [.burn sender (lptDenom n) w, .xfer (poolAddr n) sender minD out]
+
+theorem stepRem1_ok {s s' : State} {sender : Addr} {cp minD : Denom} {minA w : Nat} {dl : Int} {resp : CoinList}
+    (h : stepRem1 s sender cp minD minA w dl = .ok (s', resp)) :
+    expired s.now dl = false ∧ ∃ n, AMap.get? s.pools cp = some n ∧ (minD = cp ∨ minD = s.std) ∧
+      w < shares s n ∧
+      rem1Fits (s.bank.balOf (poolAddr n) minD) (shares s n) w (D - s.params.ufee) = true ∧
+      minA ≤ rem1Out (s.bank.balOf (poolAddr n) minD) (shares s n) w (D - s.params.ufee) ∧
+      Ledger s.bank s'.bank (rem1Moves sender n minD w
+        (rem1Out (s.bank.balOf (poolAddr n) minD) (shares s n) w (D - s.params.ufee))) ∧
+      SameCfg s s' ∧
+      resp = coins [(minD, rem1Out (s.bank.balOf (poolAddr n) minD) (shares s n) w (D - s.params.ufee))] := by
+  unfold stepRem1 at h
+  split at h
+  · cases h
+  · rename_i hexp
+    refine ⟨by simpa using hexp, ?_⟩
+    split at h
+    · cases h
+    · rename_i n hsome
+      split at h
+      · cases h
+      · rename_i hden
+        split at h
+        · cases h
+        · rename_i hlt
+          split at h
+          · cases h
+          · rename_i heq
+            split at h
+            · cases h
+            · split at h
+              · cases h
+              · rename_i hfits
+                split at h
+                · cases h
+                · rename_i hmin
+                  split at h
+                  · cases h
+                  · rename_i b1 h1
+                    split at h
+                    · cases h
+                    · rename_i b2 h2
+                      cases h
+                      refine ⟨n, hsome, ?_, by omega, by simpa using hfits, by omega,
+                        Ledger.trans (burnCk_ledger h1) (send_ledger h2), ⟨rfl, rfl, rfl, rfl, rfl, rfl⟩, rfl⟩
+                      by_cases e1 : minD = cp
+                      · exact Or.inl e1
+                      · by_cases e2 : minD = s.std
+                        · exact Or.inr e2
+                        · exact absurd ⟨e1, e2⟩ hden
+
+theorem stepDonate_ok {s s' : State} {src dst : Addr} {d : Denom} {a : Nat} {resp : CoinList}
+    (h : stepDonate s src dst d a = .ok (s', resp)) :
+    Ledger s.bank s'.bank [.xfer src dst d a] ∧ SameCfg s s' := by
+  unfold stepDonate at h
+  split at h
+  · cases h
+  · split at h
+    · cases h
+    · rename_i b hb
+      cases h
+      exact ⟨send_ledger hb, ⟨rfl, rfl, rfl, rfl, rfl, rfl⟩⟩
 
 end Irismod.Proofs.Coinswap
